@@ -1,5 +1,6 @@
 mod broker;
 mod check;
+mod codecfuzz;
 mod expect;
 mod fuzz;
 mod monitors;
@@ -10,6 +11,7 @@ mod rng;
 mod runner;
 mod sim;
 mod specval;
+mod valfuzz;
 mod world;
 
 fn arg_value(args: &[String], name: &str) -> Option<String> {
@@ -30,7 +32,10 @@ fn main() {
             let seed: u64 = arg_value(&args, "--seed").or_else(|| std::env::var("VERIF_SEED").ok()).and_then(|s| s.parse().ok()).unwrap_or(20260923);
             let budget: u64 = arg_value(&args, "--budget").and_then(|s| s.parse().ok()).unwrap_or(if tier == "thorough" { 3000 } else { 600 });
             match id.as_str() {
-                "C01" | "C04" | "C05" | "C06" | "C07" | "C08" | "C09" | "C10" | "C11" | "C14" | "C15" | "C16" | "C17" | "C18" => check::run_engine_check(&id, &tier, seed, budget),
+                "C01" | "C04" | "C05" | "C06" | "C07" | "C08" | "C09" | "C10" | "C11" | "C14" | "C15" | "C17" | "C18" => check::run_engine_check(&id, &tier, seed, budget),
+                "C02" => codecfuzz::run_c02(&tier, seed),
+                "C16" => valfuzz::run_c16(&tier, seed),
+                "C03" => codecfuzz::run_c03(&tier, seed),
                 _ => { println!("INCONCLUSIVE property={} reason=unknown-check", id); 3 }
             }
         }
